@@ -209,6 +209,7 @@ def run(chk):
     chk.rule("C03.datum-op", "two-datum operator forms yield the newest operand time; scalar/unary forms keep the time")
     chk.rule("C03.replace", "replace helpers replace iff empty or strictly newer and return exactly that")
     chk.rule("C03.latest", "latest() returns a candidate; no candidate strictly newer")
+    chk.rule("C03.device", "device updates stamp written states with the newest contributing read time")
     chk.rule("C03.stream", "stream-level merges/selections: output time is the newest contributing time (tables shared with C02)")
     sim = S.Sim(prog)
     n = check_datum_ops(chk, prog, sim)
@@ -240,6 +241,24 @@ def run(chk):
         devkit.check_c03(chk, prog, sim)
     except ImportError:
         chk.notes.append("devkit not available: terminal/device obligations not evaluated")
+    # device updates: written states carry the newest contributing time (shared simulation with C08)
+    import rules.C08 as C08
+    import report as _r
+    sub2 = _r.Check("C03", chk.tier)
+    C08.check_all(sub2, prog, sim)
+    dev_bad = set()
+    for v in sub2.violations:
+        if v["rule"] in ("C08.time", "analysis-incomplete"):
+            chk.violation("C03.device" if v["rule"] == "C08.time" else v["rule"], v["key"], v["what"], **v["detail"])
+            dev_bad.add(v["key"].split(":time")[0])
+    for k, d in sub2.obligations.items():
+        if k.startswith("project:"):
+            chk.obligation("device-time:" + k[8:], "newest contributing timestamp in " + k[8:])
+            if k not in dev_bad:
+                chk.discharge("device-time:" + k[8:])
+    chk.evaluations += sub2.evaluations
+    chk.nontrivial |= sub2.nontrivial
+    chk.functions |= sub2.functions
     chk.assume("Time's PartialOrd/PartialEq impls are derived (checked in facts)", "no i64 overflow in timestamp arithmetic")
     if not (prog.is_derived_impl("PartialOrd", "Time") and prog.is_derived_impl("PartialEq", "Time")):
         chk.violation("C03.time-order", "Time", "Time's comparison impls are not derived: order reasoning is unsound for this tree")
